@@ -641,6 +641,22 @@ pub fn logical_null_column(rng: &mut Rng, rows: usize) -> (DataType, ArrayRef) {
     (a.data_type().clone(), a)
 }
 
+/// some dictionary array (at any depth) has a null among its VALUES (scopes a known finding)
+fn dict_null_values(a: &dyn Array) -> bool {
+    match a.data_type() {
+        DataType::Dictionary(_, _) => {
+            let d = a.as_any_dictionary();
+            d.values().logical_null_count() > 0 || dict_null_values(d.values().as_ref())
+        }
+        DataType::List(_) => dict_null_values(a.as_list::<i32>().values().as_ref()),
+        DataType::LargeList(_) => dict_null_values(a.as_list::<i64>().values().as_ref()),
+        DataType::FixedSizeList(_, _) => dict_null_values(a.as_fixed_size_list().values().as_ref()),
+        DataType::Map(_, _) => a.as_map().entries().columns().iter().any(|c| dict_null_values(c.as_ref())),
+        DataType::Struct(_) => a.as_struct().columns().iter().any(|c| dict_null_values(c.as_ref())),
+        _ => false,
+    }
+}
+
 /// the type with every dictionary replaced by its value type
 fn undict(t: &DataType) -> DataType {
     let f = |f: &Arc<Field>| Arc::new(Field::new(f.name(), undict(f.data_type()), f.is_nullable()));
@@ -794,7 +810,7 @@ pub fn round_trips(args: &Args, rng: &mut Rng, tr: &mut Shards) -> (usize, usize
             "smode": if smode == StructMode::ListOnly { "list" } else { "object" },
             "nrows": nrows, "text": cps(&text_s), "wout": "ok",
             "rows_in": strs(&tok::batch_rows(&batch)), "rows_out": strs(&rows_out), "schema_in": norm_schema(&read_schema), "schema_written": norm_schema(&schema), "schema_out": schema_out,
-            "outcome": outcome, "bs": bs, "has_duration": schema.fields().iter().any(|f| has_duration(f.data_type())),
+            "outcome": outcome, "bs": bs, "dict_null_values": batch.columns().iter().any(|c| dict_null_values(c.as_ref())), "has_duration": schema.fields().iter().any(|f| has_duration(f.data_type())),
         }));
         tr.next_episode();
         n += 1;
